@@ -96,6 +96,10 @@ pub trait Flavour: Sized + 'static {
     fn for_in(u: &Self::Node, f: Step<Self::Node>);
     /// `for e in &node`
     fn for_into(u: &Self::Node, f: Step<Self::Node>);
+    /// the same three walks driven through the `Iterator` interface the way adaptor chains
+    /// do: `style` 1 asks `size_hint()` around every `next()`, `style` 2 is
+    /// `iter.map(body).collect::<Vec<_>>()`; `dir` 0 = out, 1 = in, 2 = `(&node).into_iter()`
+    fn for_adapted(u: &Self::Node, dir: u8, style: u8, f: Step<Self::Node>);
 
     fn search(root: &Self::Node, spec: &SearchSpec, cb: Cb<Self::Node>) -> SearchOut<Self::Node>;
 
@@ -414,6 +418,41 @@ macro_rules! directed_flavour {
                     }
                 }
             }
+            fn for_adapted(u: &Self::Node, dir: u8, style: u8, f: Step<Self::Node>) {
+                macro_rules! drive {
+                    ($it:expr) => {{
+                        let mut it = $it;
+                        if style == 1 {
+                            loop {
+                                let _ = it.size_hint();
+                                match it.next() {
+                                    Some(gdsl::$m::Edge(a, b, e)) => {
+                                        if !f(a, b, e) {
+                                            break;
+                                        }
+                                    }
+                                    None => break,
+                                }
+                            }
+                            let _ = it.size_hint();
+                        } else {
+                            let _v: Vec<bool> = it
+                                .map(|gdsl::$m::Edge(a, b, e)| {
+                                    if !f(a, b, e) {
+                                        std::panic::resume_unwind(Box::new(crate::locks::SimAbort("cut".into())));
+                                    }
+                                    true
+                                })
+                                .collect();
+                        }
+                    }};
+                }
+                match dir {
+                    0 => drive!(u.iter_out()),
+                    1 => drive!(u.iter_in()),
+                    _ => drive!(u.into_iter()),
+                }
+            }
             fn search(root: &Self::Node, spec: &SearchSpec, cb: Cb<Self::Node>) -> SearchOut<Self::Node> {
                 match spec.closure {
                     Closure::None => $m::go(root, spec, Meth::None),
@@ -559,6 +598,40 @@ macro_rules! undirected_flavour {
                     if !f(a, b, e) {
                         break;
                     }
+                }
+            }
+            fn for_adapted(u: &Self::Node, dir: u8, style: u8, f: Step<Self::Node>) {
+                macro_rules! drive {
+                    ($it:expr) => {{
+                        let mut it = $it;
+                        if style == 1 {
+                            loop {
+                                let _ = it.size_hint();
+                                match it.next() {
+                                    Some(gdsl::$m::Edge(a, b, e)) => {
+                                        if !f(a, b, e) {
+                                            break;
+                                        }
+                                    }
+                                    None => break,
+                                }
+                            }
+                            let _ = it.size_hint();
+                        } else {
+                            let _v: Vec<bool> = it
+                                .map(|gdsl::$m::Edge(a, b, e)| {
+                                    if !f(a, b, e) {
+                                        std::panic::resume_unwind(Box::new(crate::locks::SimAbort("cut".into())));
+                                    }
+                                    true
+                                })
+                                .collect();
+                        }
+                    }};
+                }
+                match dir {
+                    0 | 1 => drive!(u.iter()),
+                    _ => drive!(u.into_iter()),
                 }
             }
             fn search(root: &Self::Node, spec: &SearchSpec, cb: Cb<Self::Node>) -> SearchOut<Self::Node> {
